@@ -31,11 +31,14 @@ type Script struct {
 	// dialer returns the kernel's error for a missing socket), "refused" (a raw runtime peer
 	// answers RegisterPlugin with an error), "cut" (proxied to the adaptation; the proxy closes
 	// both sides as soon as K bytes went through in direction Dir).
+	// "regdrop": a raw runtime peer accepts the registration and closes the connection DropMs
+	// milliseconds later without ever sending Configure.
 	Kind string `json:"kind"`
 	Dir  string `json:"dir,omitempty"` // "s2r" (stub to runtime) or "r2s", for cut
 	K    int    `json:"k,omitempty"`
 	// CloseAfter: the refusing peer also closes the connection right after refusing.
 	CloseAfter bool `json:"close_after,omitempty"`
+	DropMs     int  `json:"drop_ms,omitempty"` // regdrop
 	// Activate: after a successful healthy Start wait until a probe reaches the plugin before
 	// the next action (otherwise the next action may fall into synchronization).
 	Activate bool `json:"activate,omitempty"`
@@ -115,7 +118,10 @@ func measureHandshake() handshake {
 // ---- generator --------------------------------------------------------------------------------
 
 func genScript(t *rapid.T, h handshake) *Script {
-	kinds := []string{"healthy", "healthy", "healthy", "cut", "cut", "cut", "unreachable", "refused"}
+	kinds := []string{"healthy", "healthy", "healthy", "healthy", "cut", "cut", "cut", "cut", "unreachable", "refused", "regdrop"}
+	if ev.Known(knownD8) {
+		kinds = kinds[:len(kinds)-1]
+	}
 	if ev.Known(knownD10) {
 		kinds = []string{"healthy", "healthy", "unreachable"}
 	}
@@ -133,6 +139,8 @@ func genScript(t *rapid.T, h handshake) *Script {
 		s.K = rapid.IntRange(lo, int(h.total[d])+8).Draw(t, "k")
 	case "refused":
 		s.CloseAfter = rapid.Bool().Draw(t, "close_after")
+	case "regdrop":
+		s.DropMs = rapid.SampledFrom([]int{0, 0, 1, 2, 5, 20}).Draw(t, "drop_ms")
 	}
 	if s.Kind != "healthy" && !ev.Known(knownD9) {
 		s.Fast = rapid.IntRange(0, 2).Draw(t, "fast") == 0
@@ -353,11 +361,15 @@ func (x *exec) dial(string) (net.Conn, error) {
 		return nil, err
 	}
 	var out net.Conn
-	if sc.Kind == "refused" {
+	if sc.Kind == "refused" || sc.Kind == "regdrop" {
 		c, d, err := socketpair()
 		if err == nil {
 			var r *refuser
-			if r, err = newRefuser(d, sc.CloseAfter); err == nil {
+			accept, closeAfter, delay := false, sc.CloseAfter, time.Millisecond
+			if sc.Kind == "regdrop" {
+				accept, closeAfter, delay = true, true, time.Duration(sc.DropMs)*time.Millisecond
+			}
+			if r, err = newRefuser(d, accept, closeAfter, delay); err == nil {
 				x.mu.Lock()
 				x.refusers = append(x.refusers, r)
 				x.mu.Unlock()
@@ -550,7 +562,7 @@ func (x *exec) doStart(sc Script) *failure {
 		}
 		lk := x.lastLink()
 		switch sc.Kind {
-		case "unreachable", "refused":
+		case "unreachable", "refused", "regdrop":
 			return hard("Start returned nil although the runtime end was %s", sc.Kind)
 		case "cut":
 			// established, but the connection is lost (or about to be): let the cut happen on
